@@ -9,6 +9,7 @@ import CBV.Lemmas.C18Hex
 import CBV.Lemmas.C18Model
 import CBV.Lemmas.C18Data
 import CBV.Lemmas.C18Clear
+import CBV.Lemmas.C18Sides
 import CBV.Gen.TC18
 
 namespace CBV.C18
@@ -779,6 +780,96 @@ example : clearSearch (swapLR cubePts) (cubeHull.reverse.map (fun s => (perm [1,
     perm [1, 0, 3, 2, 5, 4, 7, 6] s.2.1, perm [1, 0, 3, 2, 5, 4, 7, 6] s.2.2))) ⟨1 / 2, -10, 1 / 2⟩ ⟨1 / 2, 1 / 2, 10⟩
     = some cubePts := by decide +kernel
 
+
+/-! ### round 6c: every returning run, without any assumption on the view -/
+
+theorem map_eq_relabel_toList (Q : Hex) (l : List Nat) (hl : l ∈ sym48) : l.map Q = (relabel Q (perm l)).toList := by
+  obtain ⟨_, h2⟩ := sym48_perm l hl
+  unfold Hex.toList relabel
+  conv_lhs => rw [← h2, List.map_map]
+  rfl
+
+/-- **Returns ⇒ one of the 48 relabellings.**  Under the hull contract alone (`HullContract`: the oriented hull triangles
+    are the two halves of each of the six sides of the block `Q`, twelve different triangles, corners distinct to TOL,
+    and — a property of the block, not of the view — triangles of different sides are more than 60° apart), for EVERY
+    observer and ceiling, every order of the triangles and of the input points: if `reorient` returns at all, what it
+    writes back is `relabel Q σ` with `σ ∈ sym48`, i.e. a corner permutation that preserves the sides and edges of the
+    block.  Ties, dubious views, whatever the six passes pick: the 60° rule (5ddf0fe) lets `Quadrangle` accept only the
+    two halves of one side, and of the 720 assignments of six different sides to front/back/top/bottom/left/right
+    exactly those that pass the eight triple intersections and the all-points-once check (e299470) are the 48. -/
+theorem T_C18_returns_relabelling (Q : Hex) (hv : Nat → ITri × ITri) (hc : HullContract Q hv) (pts : List V3)
+    (hp : pts.Perm Q.toList) (sim : List ITri)
+    (htris : (orientedTris pts sim).Perm (sides6.flatMap (pairOf Q hv))) (obs ceil : V3) (out : List V3)
+    (h : reorient pts sim obs ceil = .ok out) :
+    ∃ l ∈ sym48, out = (relabel Q (perm l)).toList := by
+  obtain ⟨tris, hmk, hcore⟩ := reorient_spec h
+  have ht : tris = orientedTris pts sim := by
+    unfold makeTriangles at hmk
+    split at hmk
+    · cases hmk
+    · cases hmk; rfl
+  rw [ht] at hcore
+  obtain ⟨l, hl, rfl⟩ := reorientCore_sides hc hp htris hcore
+  rw [map_eq_relabel_toList Q l hl]
+  unfold fixHand
+  simp only
+  split
+  · refine ⟨_, sym48_swap_closed l hl, ?_⟩
+    rw [swapLR_toList]
+    rfl
+  · exact ⟨l, hl, rfl⟩
+
+/-- … and right-handed, for every right-handed block (all eight corner triple products of `Q` positive) -/
+theorem T_C18_returns_right_handed (Q : Hex) (hv : Nat → ITri × ITri) (hc : HullContract Q hv) (pts : List V3)
+    (hp : pts.Perm Q.toList) (sim : List ITri)
+    (htris : (orientedTris pts sim).Perm (sides6.flatMap (pairOf Q hv))) (obs ceil : V3) (out : List V3)
+    (h : reorient pts sim obs ceil = .ok out) (hrh : ∀ i < 8, 0 < tp Q i) :
+    ∀ i < 8, 0 < tp (Hex.ofList out) i := by
+  obtain ⟨tris, hmk, hcore⟩ := reorient_spec h
+  have ht : tris = orientedTris pts sim := by
+    unfold makeTriangles at hmk
+    split at hmk
+    · cases hmk
+    · cases hmk; rfl
+  rw [ht] at hcore
+  obtain ⟨l, hl, rfl⟩ := reorientCore_sides hc hp htris hcore
+  rw [map_eq_relabel_toList Q l hl]
+  apply T_C18_clear_view_right_handed
+  rcases List.mem_append.mp hl with hl | hl
+  · left
+    intro i hi
+    rw [tp_relabel_proper Q l hl i hi]
+    exact hrh _ (perm_lt l (List.mem_append_left _ hl) i (List.mem_range.mpr hi))
+  · right
+    intro i hi
+    rw [tp_relabel_improper Q l hl i hi]
+    have := hrh _ (perm_lt l (List.mem_append_right _ hl) i (List.mem_range.mpr hi))
+    linarith
+
+/-- the validator behind the request `c18.contract` is sound: what it accepts satisfies the hull contract for the block
+    numbered as the input, so every returning run on that input is one of the 48 relabellings of the input -/
+theorem T_C18_contract_check (pts : List V3) (sim : List ITri) (hok : contractOk pts sim = true) (obs ceil : V3)
+    (out : List V3) (h : reorient pts sim obs ceil = .ok out) :
+    ∃ l ∈ sym48, out = (relabel (Hex.ofList pts) (perm l)).toList := by
+  unfold contractOk at hok
+  simp only [Bool.and_eq_true, beq_iff_eq, List.all_eq_true, decide_eq_true_eq, List.isPerm_iff, Bool.or_eq_true] at hok
+  obtain ⟨⟨⟨⟨⟨h8, hsep⟩, hcut⟩, htris⟩, hnd⟩, hacross⟩ := hok
+  refine T_C18_returns_relabelling (Hex.ofList pts) _ ⟨sep_of_sepOk hsep, hcut, hnd, ?_⟩ pts
+    (by rw [toList_ofList h8]) sim htris obs ceil out h
+  intro s hs s' hs' hne X hX Y hY
+  rcases hacross s hs s' hs' with he | he
+  · exact absurd he hne
+  · exact he X hX Y hY
+
+/-- non-vacuity: the unit cube with scipy-like simplices satisfies the contract … -/
+example : contractOk cubePts cubeHull = true := by decide +kernel
+
+/-- … a view almost between two sides (observer near the diagonal x = −y, not `ClearView` by any margin) returns one of
+    the 48; the exact tie is rejected (the two best aligned triangles belong to different sides) -/
+example : (reorient cubePts cubeHull ⟨-10, -9, 1 / 2⟩ ⟨1 / 2, 1 / 2, 10⟩).toOption.map (indicesIn cubePts)
+    = some [3, 0, 1, 2, 7, 4, 5, 6] := by decide +kernel
+
+example : reorient cubePts cubeHull ⟨-10, -10, 1 / 2⟩ ⟨1 / 2, 1 / 2, 10⟩ = .error .degenerate := by decide +kernel
 
 /-! ### round 6b: duplicated vertices (merged patches)
 
